@@ -286,9 +286,15 @@ def check_plan(it, old, new, res, sym, survivors, stats):
                     unamb.append(z3.BoolVal(False))
                 elif mc is not False:
                     unamb.append(z3.Not(mc))
-        if any(len(po) > 1 for (po, _) in survivors):
-            # survivors inside an edited voice: which new leaf continues which old leaf is only determined when no other leaf of an
-            # edited / inserted / deleted voice has the same kind and size (equal ones may exchange their state): assume distinct sizes
+        nested = any(len(po) > 1 for (po, _) in survivors)
+        all_distinct = []
+        ol = nl = []
+        if nested:
+            # survivors inside an edited voice: which new leaf continues which old leaf is only determined when no OTHER leaf of an
+            # edited / inserted / deleted voice has the same kind and size as the survivor (equal ones may exchange their state).
+            # The carried-over clause is therefore judged per survivor, assuming only that the survivor's OWN leaves are unique in
+            # shape; all other leaves may coincide (that is where a greedy sibling matching goes wrong).  The competition clause
+            # below keeps the blanket "all pairwise distinct" assumption.
             kept_old_top = set(po[0] for (po, _) in survivors if len(po) == 1)
             kept_new_top = set(pn[0] for (_, pn) in survivors if len(pn) == 1)
             ol = [(lf, i) for i, c in enumerate(old[1]) if i not in kept_old_top for lf in leaves(c)]
@@ -296,12 +302,14 @@ def check_plan(it, old, new, res, sym, survivors, stats):
             for (a, _) in ol:
                 for (b, _) in nl:
                     if a[0] == b[0] and a[1] != b[1]:
-                        unamb.append(sym.size(a[1]) != sym.size(b[1]))
+                        all_distinct.append(sym.size(a[1]) != sym.size(b[1]))
             for group in (ol, nl):
                 for (a, _), (b, _) in itertools.combinations(group, 2):
                     if a[0] == b[0] and a[1] != b[1]:
-                        unamb.append(sym.size(a[1]) != sym.size(b[1]))
-        unamb = z3.And(*unamb) if unamb else z3.BoolVal(True)
+                        all_distinct.append(sym.size(a[1]) != sym.size(b[1]))
+        top_unamb = z3.And(*unamb) if unamb else z3.BoolVal(True)
+        unamb = z3.And(top_unamb, *all_distinct) if all_distinct else top_unamb
+        old_nodes = dict(nodes(old))
         for (po, pn) in survivors:
             stats['obligations'] += 1
             a_n, z_n = ln[pn]
@@ -309,7 +317,29 @@ def check_plan(it, old, new, res, sym, survivors, stats):
             for (src, dst, size) in patches:
                 inside = z3.And(z3.UGE(Z(dst), Z(a_n)), z3.ULE(Z(dst) + Z(size), Z(a_n) + Z(z_n)))
                 covered = covered + z3.If(inside, Z(size), Z(0))
-            if not holds(smt, z3.Implies(unamb, covered == Z(z_n))):
+            assume = top_unamb
+            if nested and len(po) > 1:
+                own = leaves(old_nodes[po])
+                own_ids = set(lf[1] for lf in own)
+                uniq = []
+                for lf in own:
+                    for (m, _) in ol + nl:
+                        if m[0] == lf[0] and m[1] not in own_ids:
+                            uniq.append(sym.size(lf[1]) != sym.size(m[1]))
+                assume = z3.And(top_unamb, *uniq) if uniq else top_unamb
+                # ... and only when the plan as a whole carries fewer words than the survivors of this reading of the edit hold:
+                # a plan that keeps as much under another reading of the same pair of layouts (e.g. a tie between two partial
+                # matches) loses nothing that "survives"
+                total_copied = Z(0)
+                for (_s, _d, size) in patches:
+                    total_copied = total_copied + Z(size)
+                total_surv = Z(0)
+                for (_po, _pn) in survivors:
+                    total_surv = total_surv + Z(ln[_pn][1])
+                if not holds(smt, z3.Implies(assume, z3.Or(covered == Z(z_n), z3.UGE(total_copied, total_surv)))):
+                    raise PlanViolation('survivor', 'surviving subtree old%s -> new%s is not carried over completely (and the plan carries fewer words than the survivors hold)' % (list(po), list(pn)))
+                continue
+            if not holds(smt, z3.Implies(assume, covered == Z(z_n))):
                 raise PlanViolation('survivor', 'surviving subtree old%s -> new%s is not carried over completely' % (list(po), list(pn)))
         for (a, b) in itertools.combinations(patches, 2):
             stats['obligations'] += 1
@@ -377,14 +407,22 @@ def concrete_clause_check(old, new, sizes, real, survivors):
     if survivors is not None:
         kept_new = set(tuple(pn) for (_, pn) in survivors)
         amb = any(match_cond(nc, oc, sym) is True for i, nc in enumerate(new[1]) if (i,) not in kept_new for oc in old[1])
+        ol = nl = []
         if not amb and any(len(po) > 1 for (po, _) in survivors):
             kept_old_top = set(tuple(po)[0] for (po, _) in survivors if len(po) == 1)
             kept_new_top = set(tuple(pn)[0] for (_, pn) in survivors if len(pn) == 1)
             ol = [lf for i, c in enumerate(old[1]) if i not in kept_old_top for lf in leaves(c)]
             nl = [lf for i, c in enumerate(new[1]) if i not in kept_new_top for lf in leaves(c)]
-            pairs_ = [(a, b) for a in ol for b in nl] + list(itertools.combinations(ol, 2)) + list(itertools.combinations(nl, 2))
-            amb = any(a[0] == b[0] and a[1] != b[1] and sizes[a[1]] == sizes[b[1]] for (a, b) in pairs_)
+        old_nodes = dict(nodes(old))
         for (po, pn) in ([] if amb else survivors):
+            if len(po) > 1:
+                # judged only when the survivor's own leaves are unique in shape among the leaves of the edited voices
+                own = leaves(old_nodes[tuple(po)])
+                own_ids = set(lf[1] for lf in own)
+                if any(m[0] == lf[0] and m[1] not in own_ids and sizes[m[1]] == sizes[lf[1]] for lf in own for m in ol + nl):
+                    continue
+                if sum(z for (s_, d_, z) in ps) >= sum(ln[tuple(q)][1] for (_, q) in survivors):
+                    continue
             a_n, z_n = ln[tuple(pn)]
             cov = sum(z for (s, d, z) in ps if d >= a_n and d + z <= a_n + z_n)
             if cov != z_n:
